@@ -411,21 +411,38 @@ PROPS = {
                      "HashMap::get and lazy_static initialisation are trusted"],
     ),
     "C15": dict(
-        lean_modules=["AlphaG.Props.C15"],
+        lean_modules=["AlphaG.Props.C15", "AlphaG.Props.C15b", "AlphaG.Driver.C15b"],
         required_theorems=["AlphaG.Cluster." + t for t in [
             "cluster_partition", "cluster_min_size", "cluster_connected", "clusters_disjoint", "cluster_total"]]
-            + ["AlphaG.Vertexing." + t for t in ["vertex_partition", "secondaries_empty", "primary_min_two"]],
-        harness=[("c15", ["dev"])],
+            + ["AlphaG.Vertexing." + t for t in ["vertex_partition", "secondaries_empty", "primary_min_two"]]
+            + ["AlphaG.Hough." + t for t in [
+                "getBins_no_panic", "getBins_nodup", "getBins_bounds", "getBins_mem_iff", "getBins_respects_eq",
+                "distance_symm", "near_symm", "ctxOf_good", "ctxOf_spec", "clusterX_eq", "cluster_total_concrete",
+                "cluster_partition_concrete", "cluster_min_size_concrete", "cluster_connected_concrete",
+                "clusters_disjoint_concrete", "szCompat", "szRun3"]]
+            + ["AlphaG.Driver.C15b.rankFn_injOn", "AlphaG.Driver.C15b.driver_ctx_good"],
+        harness=[("c15", ["dev"]), ("c15b", ["dev"])],
         disagreement_is_failing_input=False,
+        disagreement_failing_modules=["c15b"],
         level_text="Lean theorems for point multisets of any size, any bin function and any symmetric distance relation: the "
                    "clustering (Hough accumulator with IndexMap insertion order, most_popular = last maximum, flood fill with "
                    "pop/swap_remove, best_cluster loop, remainder bookkeeping) terminates with fuel |sp|+1, fires none of its "
                    "unwraps, and its output is a partition of the input as a multiset (cluster_partition), every cluster has at "
                    "least min points and is connected by chains of near-steps inside it, clusters are disjoint; vertex finding "
                    "partitions the tracks between the primary vertex and the remainder, reports no secondaries and a primary "
-                   "only with >= 2 tracks.",
-        level_note="Hypotheses (checked on every generated cloud by the harness): == is an equivalence (NaN-free points), "
-                   "get_bins respects == and lists no bin twice, distance is symmetric; 1 <= min (the code passes 13). The model "
+                   "only with >= 2 tracks. For the concrete functions: get_bins (conformal map, theta loop, both-negative rule, clipped "
+                   "range, saturating cast) is modelled operation by operation over a generic carrier; for every carrier and "
+                   "input it never reaches its try_into().unwrap(), lists no bin twice and only theta < theta_bins "
+                   "(getBins_*); the clustering theorems are instantiated to the concrete bin function, == and distance <= "
+                   "max_distance (cluster_*_concrete).",
+        level_note="bins_nodup is a theorem for any carrier. Remaining hypotheses are three named carrier laws: BeqPER (== "
+                   "symmetric and transitive, reflexive on the NaN-free input), EqCompat (== respected by * + sin cos, by / in "
+                   "the numerator, by floor-as-i32, and a == b -> a*a = b*b) and SubSqSymm ((a-b)^2 = (b-a)^2); they are proved "
+                   "for a signed-zero integer carrier and (SubSqSymm) every commutative ring; for f64 they are true by IEEE "
+                   "analysis but not provable in Lean (Float is opaque) and are sampled (eqlaws, == twins, distances). The whole "
+                   "clustering computed by the model from the points alone equals the real cluster_spacepoints in order on "
+                   "every generated cloud (clusterx), and get_bins is bit-identical incl. exact bin-boundary hits. 1 <= min (the "
+                   "code passes 13). The abstract model "
                    "is tied to the code by replaying the combinatorial algorithm on the bins and adjacency computed by the real "
                    "code (same clusters in the same order, same remainder order) and by independent oracles on the real "
                    "output. IndexMap and sort_unstable_by semantics are modelled.",
@@ -435,7 +452,10 @@ PROPS = {
         rule="cases: random clouds, 1-5 helical tracks with noise, exact duplicates, 0..=400 points (2000 in thorough), other "
              "min/grid/distance parameters, size boundaries around 13, degenerate families; find_vertices on track lists of "
              "size 0..=8 with ties; distinct by request line",
-        assumptions=["IndexMap keeps insertion order; max_by_key returns the last maximum", "sort_unstable_by returns a permutation"],
+        assumptions=["IndexMap keeps insertion order; max_by_key returns the last maximum", "sort_unstable_by returns a permutation",
+                     "f64 satisfies BeqPER/EqCompat/SubSqSymm (IEEE analysis + sampling; Lean's Float is opaque)",
+                     "libm sin/cos of Lean's Float equal Rust's (bit-identical on this machine in all cases)",
+                     "f64::powi(2) is one multiplication"],
     ),
     "C14": dict(
         lean_modules=["AlphaG.Props.C14", "AlphaG.Props.C15", "AlphaG.Props.C14b", "AlphaG.Lemmas.TrackInit"],
